@@ -352,6 +352,13 @@ impl Key {
         expected: &hmac::Tag,
         provided: &[u8],
     ) -> Result<(), ValidationError> {
+        // RFC 8945, section 5.2.2.1: a MAC that is longer than the output
+        // of the algorithm or shorter than the larger of 10 octets and half
+        // that output is a format error. Only a permitted truncation that
+        // is too short for local policy is BADTRUNC (section 5.2.4).
+        if !self.algorithm().within_len_bounds(provided.len()) {
+            return Err(ValidationError::FormErr);
+        }
         if provided.len() < self.min_mac_len {
             return Err(ValidationError::BadTrunc);
         }
